@@ -272,6 +272,24 @@ def families_for(noise_type, sde_type, seed=0, d=None, batch=None):
     return out
 
 
+class Float32View(torch.nn.Module):
+    """A float64 closed-form family presented as a float32 SDE: coefficients are evaluated by the family in float64 and
+    handed back in the state's dtype, so the solver's own arithmetic (increments, Milstein / Runge-Kutta stages, finite
+    differences) runs in float32."""
+
+    def __init__(self, fam):
+        super().__init__()
+        self.fam = fam
+        self.noise_type, self.sde_type, self.m, self.d = fam.noise_type, fam.sde_type, fam.m, fam.d
+        self.needs_U = getattr(fam, "needs_U", False)
+
+    def f(self, t, y):
+        return self.fam.f(torch.as_tensor(t, dtype=torch.float64), y.double()).to(y.dtype)
+
+    def g(self, t, y):
+        return self.fam.g(torch.as_tensor(t, dtype=torch.float64), y.double()).to(y.dtype)
+
+
 def exact_on_path(fam, bm, t0, t, y0):
     """Evaluate the exact solution on the very Brownian object the solver consumed."""
     if bm.levy_area_approximation != "none":
@@ -279,6 +297,8 @@ def exact_on_path(fam, bm, t0, t, y0):
         W, U = out[0], out[1]
     else:
         W, U = bm(t0, t), None
+    if W.dtype != torch.float64:  # float32 path (Float32View runs): the closed form itself is evaluated in float64
+        W, U, y0 = W.double(), (None if U is None else U.double()), y0.double()
     if fam.needs_U and U is None:
         raise ValueError("family needs U: build the Brownian motion with a space-time Levy area")
     if fam.noise_type == "scalar" and not isinstance(fam, LinearCommuting):
